@@ -436,6 +436,121 @@ def check_frameobj(res, rng, tier):
     return len(reqs)
 
 
+# ---------------------------------------------------------------------------------------------- structures (W7c)
+
+def enc_nested(v):
+    """one word, nested: scalars, data-class instances `O<cls>(f=v,…)`, dicts `M(<hex key>=v,…)`"""
+    import dataclasses
+    if dataclasses.is_dataclass(v) and not isinstance(v, type):
+        return "O" + type(v).__name__ + "(" + ",".join(f"{f.name}={enc_nested(getattr(v, f.name))}" for f in dataclasses.fields(v)) + ")"
+    if isinstance(v, dict):
+        return "M(" + ",".join(hexs(k.encode()) + "=" + enc_nested(x) for k, x in v.items()) + ")"
+    if isinstance(v, int) and not isinstance(v, bool):
+        return f"i{int(v)}"
+    return pycode.enc_scalar(v)
+
+
+def cases_net(rng, quick):
+    """(qualified name, constant-parameter values, sender, args, thunk(structure))"""
+    from pyplumio.const import EncryptionType
+    from pyplumio.structures import network_info as ni
+    from pyplumio.structures import program_version as pv
+    n = 40 if quick else 600
+    tags = [b"", b"\x01", b"\xff\xff", b"\x01\x02\x03", b"\x7a\x00", b"\x00\x00\x00", bytes(5)]
+    softs = [pv.SOFTWARE_VERSION, "1.2.3", "0.0.0", "65535.65535.65535", "65536.0.0", "1.2", "1", "1.2.3.4", "a.b.c", "", "1..3", "01.002.3",
+             " 1.2.3", "1_0.2.3", "+1.2.3", "1.2.-3", "1.2.3 ", "１.2.3", "1.2.x3", "12345678901234567890.1.1"]
+    for _ in range(n):
+        v = pv.VersionInfo(software=rng.choice(softs) if rng.random() < 0.5 else ".".join(str(rng.randrange(70000)) for _ in range(3)),
+                           struct_tag=rng.choice(tags), struct_version=rng.choice([5, 0, 255, 256, -1, rng.randrange(256)]),
+                           device_id=rng.choice(tags), processor_signature=rng.choice(tags))
+        data = rng.choice([{}, {"version": v}, {"version": v}, {"version": v, "x": 1}])
+        sender = rng.choice([86, 69, 0, 255, 256, -1, rng.randrange(256)])
+        yield "ProgramVersionStructure.encode", [pv.SOFTWARE_VERSION], sender, [data], (lambda st, data=data: st.encode(data))
+    for _ in range(n):
+        m = bytes(rng.randrange(256) for _ in range(rng.choice([0, 1, 14, 15, 15, 15, 16, 20, 40])))
+        off = rng.choice([0, 0, 1, 7])
+        data = rng.choice([None, None, {}, {"x": 1}, {"version": 3}])
+        yield "ProgramVersionStructure.decode", [], 86, [m, off, data], (lambda st, m=m, off=off, data=data: st.decode(bytearray(m), off, None if data is None else dict(data)))
+    ip = lambda: socket.inet_ntoa(bytes(rng.randrange(256) for _ in range(4)))  # noqa: E731
+    ips = lambda: rng.choice([ip(), ip(), "0.0.0.0", "255.255.255.0", "01.2.3.4", "1.2.3", "x"])  # noqa: E731
+    ssids = ["", "boiler", "zażółć", "日本語", "x" * 255, "x" * 256, "é" * 128, "a b"]
+    for _ in range(n):
+        eth = ni.EthernetParameters(ip=ips(), netmask=ips(), gateway=ips(), status=rng.random() < 0.5)
+        wlan = ni.WirelessParameters(ip=ips(), netmask=ips(), gateway=ips(), status=rng.random() < 0.5, ssid=rng.choice(ssids),
+                                     encryption=rng.choice(list(EncryptionType) + [7]), signal_quality=rng.choice([100, 0, 255, 256, -1, rng.randrange(256)]))
+        net = ni.NetworkInfo(eth=eth, wlan=wlan, server_status=rng.random() < 0.5)
+        data = rng.choice([{}, {"network": net}, {"network": net}, {"network": net}])
+        yield "NetworkInfoStructure.encode", [], 86, [data], (lambda st, data=data: st.encode(data))
+    good = []
+    for _ in range(n):
+        net = ni.NetworkInfo(eth=ni.EthernetParameters(ip=ip(), netmask=ip(), gateway=ip(), status=rng.random() < 0.5),
+                             wlan=ni.WirelessParameters(ip=ip(), netmask=ip(), gateway=ip(), status=rng.random() < 0.5, ssid=rng.choice(ssids[:5]),
+                                                        encryption=rng.choice(list(EncryptionType)), signal_quality=rng.randrange(256)),
+                             server_status=rng.random() < 0.5)
+        good.append(bytes(ni.NetworkInfoStructure(None).encode({"network": net})))
+    for _ in range(2 * n):
+        r = rng.random()
+        m = bytearray(rng.choice(good))
+        if r < 0.3:
+            m[rng.randrange(len(m))] = rng.randrange(256)
+        elif r < 0.5:
+            m = m[:rng.randrange(len(m) + 1)]
+        elif r < 0.6:
+            m = bytearray(rng.randrange(256) for _ in range(rng.randrange(60)))
+        off = rng.choice([1, 1, 1, 0, 3])
+        data = rng.choice([None, None, {}, {"x": 1}])
+        yield "NetworkInfoStructure.decode", [], 86, [bytes(m), off, data], (lambda st, m=bytes(m), off=off, data=data: st.decode(bytearray(m), off, None if data is None else dict(data)))
+
+
+def check_net(res, rng, tier):
+    from pyplumio.structures import network_info as ni
+    from pyplumio.structures import program_version as pv
+    quick = tier == "quick"
+    have = set(driver_batch(["pyt-functions"])[0].split())
+    reqs, expect, inputs, missing = [], [], [], set()
+
+    class FakeFrame:
+        def __init__(self, sender):
+            self.sender = sender
+    for name, ks, sender, args, thunk in cases_net(rng, quick):
+        if name not in have:
+            missing.add(name)
+            continue
+        cls = {"ProgramVersionStructure": pv.ProgramVersionStructure, "NetworkInfoStructure": ni.NetworkInfoStructure}[name.split(".")[0]]
+        self_atom = f"O{cls.__name__}(frame=OFrame(sender=i{sender}))"
+        self_show = cls.__name__ + "{frame=Frame{sender=" + str(sender) + "}}"
+        try:
+            atoms = [enc_nested(k) for k in ks] + [self_atom] + [enc_nested(a) for a in args]
+        except (TypeError, UnicodeEncodeError):
+            continue
+        try:
+            r = thunk(cls(FakeFrame(sender)))
+            exp = "ok (" + pycode.show(r) + "," + self_show + ")"
+        except Exception as e:  # noqa: BLE001
+            exp = "err " + exc_name(e)
+        reqs.append(f"pytn {name} " + " ".join(atoms))
+        expect.append(exp)
+        inputs.append(dict(function=name, sender=sender, args=[repr(a)[:300] for a in args]))
+    answers = driver_batch(reqs)
+    for line, exp, ans, inp in zip(reqs, expect, answers, inputs):
+        res.case(("pycode_types", line[:400]))
+        if ans.startswith("err unsupported"):
+            res.count("pycode_types: outside the prelude's modelled domain (declined, not compared)")
+            continue
+        res.count("pycode_types:" + inp["function"].split(".")[0])
+        if ans == "bad-op":
+            res.fail("corr", dict(inp, request=line[:600]), "an answer of the generated definition", "bad-op",
+                     f"translated {inp['function']}: the driver has no generated definition of that name/arity, or the input could not be written down")
+        elif ans != exp:
+            res.fail("corr", dict(inp, request=line[:600]), dict(generated_lean=ans[:800]), dict(python=exp[:800]),
+                     f"translated {inp['function']} (Generated/PyCodeTypes.lean via tools/py2lean_types.py + PyPreludeNet) and the Python method differ")
+    if missing:
+        res.notes.append("pycode_types: not translated on this tree (outside the translator's subset), not compared: " + ", ".join(sorted(missing)))
+    res.notes.append(f"pycode_types: {len(reqs)} evaluations of the translated network-information / program-version structures "
+                     "(encode, decode) compared with the real methods")
+    return len(reqs)
+
+
 GROUPS = {"types": cases_types}
 
 
@@ -445,8 +560,13 @@ def check(res, rng, tier, groups):
     have = set(driver_batch(["pyt-functions"])[0].split())
     missing = set()
     extra = 0
+    if "net" in groups:
+        extra += check_net(res, rng, tier)
+        groups = [g for g in groups if g != "net"]
+        if not groups:
+            return extra
     if "frameobj" in groups:
-        extra = check_frameobj(res, rng, tier)
+        extra += check_frameobj(res, rng, tier)
         groups = [g for g in groups if g != "frameobj"]
         if not groups:
             return extra
